@@ -142,6 +142,8 @@ func (d *vfDisk) replay(extra map[string]interface{}) map[string]interface{} {
 // guard runs f with a watchdog; a hang is a monitor violation (the cache must
 // never block a caller forever) and the storer is abandoned.
 func (d *vfDisk) guard(what string, f func()) bool {
+	t0 := time.Now()
+	defer func() { d.s.Add("us_"+what, int(time.Since(t0).Microseconds())) }()
 	done := make(chan struct{})
 	go func() {
 		defer close(done)
